@@ -670,3 +670,123 @@ Example c12_nonvacuous_instr :
   ptask_done s2 0 = true /\ ptask_done s2 1 = true /\ calls (psh s2) = [0] /\
   results (psh s2) 0 = [(0, OLoad)] /\ results (psh s2) 1 = [(0, OLoad)] /\ req (psh s2) = 1 /\ proc (psh s2) = 1.
 Proof. exact pm_nonvacuous. Qed.
+
+(* ---- the `stats` map (Symbolizer::stats; round 5, second pass; C12/StatsProofs.v): in EVERY reachable state an entry is the
+   classification of the supplier's single answer for a requested module with that leaf name whose lookup has
+   completed (remembered failures included), a finished lookup's module has an entry under its leaf name, and at
+   quiescence every requested module has one.  Which module of a shared leaf name wins is schedule dependent (C13). ---- *)
+From RM Require Import C12.StatsProofs.
+Theorem c12_stats_sound : forall (c : config) (sched : list task) (lf : nat) (o : outcome),
+  stats (sh (run c sched)) lf = Some o ->
+  exists k, In k (concat (tasks c)) /\ leaf c k = lf /\ o = outc c k /\ value (sh (run c sched)) k = Some o.
+Proof. exact stats_sound. Qed.
+Print Assumptions c12_stats_sound.
+
+Theorem c12_stats_has_finished : forall (c : config) (sched : list task) (t : task) (i : nat) (k : key) (o : outcome),
+  task_result (run c sched) t i = Some (k, o) -> stats (sh (run c sched)) (leaf c k) <> None.
+Proof. exact stats_has_finished. Qed.
+Print Assumptions c12_stats_has_finished.
+
+Theorem c12_stats_complete_at_quiescence : forall (c : config) (sched : list task) (k : key),
+  all_done c (run c sched) = true -> In k (concat (tasks c)) -> stats (sh (run c sched)) (leaf c k) <> None.
+Proof. exact stats_complete_quiescent. Qed.
+Print Assumptions c12_stats_complete_at_quiescence.
+
+Example c12_nonvacuous_stats :
+  let c := {| tasks := [[0; 1]; [1; 2]]; susp := fun k => k; outc := fun k => if Nat.eqb k 1 then OParse else OOk;
+              leaf := fun k => k / 2 |} in
+  let mid := run c [0; 1] in let fin := run c [0; 1; 0; 1; 0; 1; 0; 1] in
+  task_result mid 0 0 = Some (0, OOk) /\ stats (sh mid) 0 = Some OOk /\ stats (sh mid) 1 = None /\
+  all_done c fin = true /\ stats (sh fin) 0 = Some OParse /\ stats (sh fin) 1 = Some OOk.
+Proof. vm_compute. repeat split. Qed.
+
+(* ---- the processor (round 5, second pass; C12/ProcModel.v, C12/ProcProofs.v, Gen/C12Processor.v regenerated by
+   translate/c12_processor.py from processor.rs / minidump-unwind): into_process_state reads the stats, walks ALL threads
+   by one join_all whose per-thread future awaits walk_stack once, reads the stats again; walk_stack asks
+   fill_symbol for the module of every frame and then lets get_caller_frame make its lookups; the provider methods of
+   Symbolizer are plain delegations. ---- *)
+From RM Require Import C12.ProcModel C12.ProcProofs Gen.C12Processor.
+
+Theorem c12_source_processor_shape : src_walker = canon_walker.
+Proof. exact src_walker_is_canon. Qed.
+Print Assumptions c12_source_processor_shape.
+
+Theorem c12_source_provider_users : src_provider_users = canon_provider_users.
+Proof. exact src_provider_users_ok. Qed.
+Print Assumptions c12_source_provider_users.
+
+(* for EVERY dump shape (any number of threads, frames, modules; any lookups of the unwinder, symbol lookups only), every
+   supplier script and enough fuel: the executor that polls the join_all only when its waker fired finishes (never
+   "nobody woken") after at most [work] root polls; the first stats read is empty; every module of every frame — and
+   every module the unwinder asked about — was located exactly once, nothing more than once; every thread has all its
+   answers and each is the supplier's single answer for that module; requested = processed = distinct modules; the
+   stats map copied into the ProcessState has an entry for the leaf name of every such module and each entry
+   classifies the answer of one of the requested modules with that leaf name *)
+Theorem c12_processor_once_per_module : forall (d : dump) (base : config) (fuel : nat),
+  walk_ok d -> work (cfg (proc_pc src_walker d base)) <= fuel ->
+  exists (s : pstate) (r : nat) (after : snapshot),
+    process src_program src_walker d base fuel = Some (s, [(fun _ => None); after]) /\
+    after = stats (psh s) /\
+    s = prun src_program (proc_pc src_walker d base) (round_robin (cfg (proc_pc src_walker d base)) r) /\
+    r <= work (cfg (proc_pc src_walker d base)) /\
+    pall_done (proc_pc src_walker d base) s = true /\
+    (forall th f k, In th d -> In f th -> f_module f = Some k -> psupplier_calls s k = 1) /\
+    (forall k, In k (concat (tasks (cfg (proc_pc src_walker d base)))) -> psupplier_calls s k = 1) /\
+    (forall k, psupplier_calls s k <= 1) /\
+    (forall t, map fst (results (psh s) t) = map snd (nth t (ptasks (proc_pc src_walker d base)) [])) /\
+    (forall t i k o, ptask_result s t i = Some (k, o) -> o = outc base k) /\
+    req (psh s) = distinct_keys (cfg (proc_pc src_walker d base)) /\
+    proc (psh s) = distinct_keys (cfg (proc_pc src_walker d base)) /\
+    (forall lf o, after lf = Some o ->
+       exists k, In k (concat (tasks (cfg (proc_pc src_walker d base)))) /\ leaf base k = lf /\ o = outc base k) /\
+    (forall k, In k (concat (tasks (cfg (proc_pc src_walker d base)))) -> after (leaf base k) <> None).
+Proof. exact processor_once_per_module. Qed.
+Print Assumptions c12_processor_once_per_module.
+
+Example c12_nonvacuous_processor :
+  walk_ok ex_dump /\ work (cfg (proc_pc src_walker ex_dump ex_base)) = 28 /\
+  match process src_program src_walker ex_dump ex_base 28 with
+  | Some (s, [before; after]) =>
+      before 0 = None /\ after 0 = Some OParse /\ after 1 = Some OOk /\ after 2 = None /\
+      calls (psh s) = [0; 1; 2] /\ req (psh s) = 3 /\ proc (psh s) = 3 /\
+      results (psh s) 1 = [(1, OParse); (1, OParse); (2, OOk); (0, OOk); (0, OOk)]
+  | _ => False
+  end.
+Proof. split; [exact ex_dump_ok|exact ex_process]. Qed.
+
+(* ---- the pending counters of a run that MIXES symbol lookups and file lookups (round 5, second pass;
+   C12/ProgCountMix.v): [sk] tells symbol slots from file slots (different maps in the code).  The closure of
+   locate_file_internal touches neither counter; whatever the instruction-level interleaving,
+   processed <= requested <= number of distinct MODULE keys asked for, and at quiescence all three are equal — the
+   file lookups of the same run (each fetched once, c12_source_instr_at_most_once) do not count.  With
+   sk = fun _ => true this is c12_source_instr_counters. ---- *)
+From RM Require Import C12.ProgCountMix.
+Theorem c12_source_instr_mixed_counters_bounded : forall (sk : key -> bool) (pc : pconfig) (ms : list task),
+  classified sk pc ->
+  proc (psh (pmrun src_program pc ms)) <= req (psh (pmrun src_program pc ms)) /\
+  req (psh (pmrun src_program pc ms)) <= distinct_sym_keys sk pc.
+Proof. exact src_mix_counters_bounded. Qed.
+Print Assumptions c12_source_instr_mixed_counters_bounded.
+
+Theorem c12_source_instr_mixed_counters : forall (sk : key -> bool) (pc : pconfig) (ms : list task),
+  classified sk pc -> pall_done pc (pmrun src_program pc ms) = true ->
+  req (psh (pmrun src_program pc ms)) = distinct_sym_keys sk pc /\
+  proc (psh (pmrun src_program pc ms)) = distinct_sym_keys sk pc.
+Proof. exact src_mix_counters_quiescent. Qed.
+Print Assumptions c12_source_instr_mixed_counters.
+
+(* the same for whole polls in any order (every poll schedule is an instruction schedule) *)
+Theorem c12_source_mixed_counters : forall (sk : key -> bool) (pc : pconfig) (sched : list task), classified sk pc ->
+  proc (psh (prun src_program pc sched)) <= req (psh (prun src_program pc sched)) /\
+  req (psh (prun src_program pc sched)) <= distinct_sym_keys sk pc /\
+  (pall_done pc (prun src_program pc sched) = true ->
+   req (psh (prun src_program pc sched)) = distinct_sym_keys sk pc /\
+   proc (psh (prun src_program pc sched)) = distinct_sym_keys sk pc).
+Proof. exact src_mix_poll_counters. Qed.
+Print Assumptions c12_source_mixed_counters.
+
+Example c12_nonvacuous_mixed_counters :
+  classified mix_sk mix_pc /\ distinct_sym_keys mix_sk mix_pc = 2 /\ distinct_keys (cfg mix_pc) = 3 /\
+  let s := pmrun src_program mix_pc (concat (repeat [0; 1; 2] 40)) in
+  pall_done mix_pc s = true /\ req (psh s) = 2 /\ proc (psh s) = 2 /\ length (calls (psh s)) = 3.
+Proof. split; [exact mix_classified|exact mix_example]. Qed.
